@@ -5,6 +5,7 @@ import GdcVerif.Lemmas.JllCanon
 import GdcVerif.Lemmas.JllScan
 import GdcVerif.Lemmas.JllOptimal
 import GdcVerif.Lemmas.JllCompose
+import GdcVerif.Lemmas.JllEndToEnd
 /-!
   C02 — JPEG Lossless (Process 14, predictors 1–7) and SV1: exact reconstruction.
 
@@ -272,5 +273,57 @@ theorem lossless_scan_roundtrip_optimal (sv1 : Bool) (P predictor w h nc : Nat) 
 example : let s : Array (Array Int) := #[#[0, 32767, 32767, 0]]
     s.size = 1 ∧ (∀ c (hc : c < s.size), s[c].size = 2 * 2) ∧
     (∀ c (hc : c < s.size) i (hi : i < s[c].size), 0 ≤ s[c][i] ∧ s[c][i] < Go.shl 1 15) := by decide
+
+/-! ## END TO END — `Decode (Encode pixels) = pixels` at byte level -/
+
+/-- C02 for the byte-exact models of `lossless.Encode/Decode` (sv1 = false) and
+    `lossless14sv1.Encode/Decode` (sv1 = true), `Model/JpegLosslessStream.lean`:
+    for every width and height in 1..65535, 1 or 3 components, precision 2..16, predictor
+    argument 0..7 (0 = automatic selection: whatever `SelectBestPredictor` returns, proved to be in
+    1..7) and SV1, and every native pixel buffer whose samples occupy the low P bits (`PixOk`:
+    P ≤ 8 one byte per sample < 2^P; P > 8 two bytes little-endian, high byte < 2^(P−8)):
+    `Encode` succeeds and `Decode` of its stream returns exactly the pixel bytes together with the
+    same width, height, component count and precision. -/
+theorem lossless_roundtrip (sv1 : Bool) (pix : Array Nat) (w h nc P predictor : Nat)
+    (hw : 1 ≤ w ∧ w ≤ 65535) (hh : 1 ≤ h ∧ h ≤ 65535) (hc : nc = 1 ∨ nc = 3)
+    (hP : 2 ≤ P ∧ P ≤ 16) (hpr : predictor ≤ 7) (hpix : PixOk P w h nc pix) :
+    ∃ stream, Stream.encode sv1 pix w h nc P predictor = .ok stream ∧
+      Stream.decode sv1 stream = .ok (pix.toList, w, h, nc, P) :=
+  encode_decode' sv1 pix w h nc P predictor hw hh hc hP hpr hpix
+
+example : PixOk 12 2 1 1 #[0xFF, 0x0F, 0x00, 0x00] ∧ PixOk 8 1 1 3 #[1, 2, 255] := by
+  refine ⟨?_, ?_⟩ <;> simp only [PixOk] <;> decide
+
+/-- container bytes ↔ samples: `samplesToPixels ∘ pixelsToSamples = id` on admissible buffers, and the
+    samples are P-bit values in planes of the right shape -/
+theorem pixels_samples_inverse (P w h nc : Nat) (pix : Array Nat) (hp : PixOk P w h nc pix)
+    (hP : 2 ≤ P ∧ P ≤ 16) :
+    ∃ s, pixelsToSamples P w h nc pix = .ok s ∧ Sized w h nc s ∧ InRange P s ∧
+      samplesToPixels P w h nc s = .ok pix.toList := pixels_samples P w h nc pix hp hP
+
+/-- the frequency pass accumulates exactly the category counts of the scan it precedes -/
+theorem freq_pass_counts (sv1 : Bool) (P predictor w h nc : Nat) (s : Array (Array Int)) (hs : Sized w h nc s) :
+    Stream.freqPass sv1 P predictor w h nc s = .ok (catFreq (emittedCats sv1 P predictor w h nc s)) :=
+  freqPass_ok sv1 P predictor w h nc s hs
+
+/-- automatic selection returns a legal predictor -/
+theorem auto_predictor_legal (w h nc : Nat) (s : Array (Array Int)) (hs : Sized w h nc s) :
+    ∃ p, Stream.selectBestPredictor w h nc s = .ok p ∧ 1 ≤ p ∧ p ≤ 7 :=
+  selectBestPredictor_ok w h nc s hs
+
+/-- the decoder's marker loop on the encoder's header: for ANY stuffing-clean scan the stream model of
+    `Decode` reduces to the scan decoder with the table of the DHT segment -/
+theorem decode_of_encoder_layout (sv1 : Bool) (w h nc P pred : Nat) (tb : JpegC.HuffTable) (t : Table)
+    (hdr scan : List Nat)
+    (hw : 1 ≤ w ∧ w ≤ 65535) (hh : 1 ≤ h ∧ h ≤ 65535) (hc : nc = 1 ∨ nc = 3) (hP : 2 ≤ P ∧ P ≤ 16)
+    (hpred : 1 ≤ pred ∧ pred ≤ 7) (hsv : sv1 = true → pred = 1) (htb : JpegC.TableOk tb)
+    (hb : Table.build (tb.bits.map Int.toNat) tb.values.toArray = .ok t)
+    (hhdr : (if sv1 then JpegC.sv1Header w h nc P tb else JpegC.losslessHeader w h nc P pred tb) = .ok hdr)
+    (hst : StuffOk scan = true) :
+    Stream.decode sv1 (hdr ++ scan ++ [0xFF, 0xD9]) =
+      (do let s ← decodeScan sv1 P pred w h nc t scan
+          let pix ← samplesToPixels P w h nc s
+          pure (pix, w, h, nc, P)) :=
+  Stream.decode_header sv1 w h nc P pred tb t hdr scan hw hh hc hP hpred hsv htb hb hhdr hst
 
 end JLL
